@@ -222,10 +222,13 @@ def Inst.crash (I : Inst) : Option String :=
 instance the harness extracts from the real call) -/
 
 /-- A RUNNING task's previous placement names a worker of this invocation and one of the
-task's own strategies (otherwise the code raises `ValueError` / misses the dict key). -/
+task's own strategies (otherwise the code raises `ValueError` / misses the dict key), which
+that worker can hold; a RUNNING task has no parent with variables (its parents completed). -/
 def Inst.wfRunning (I : Inst) : Bool :=
   (List.range I.nT).all (fun t => !I.running t ||
-    (decide ((I.task t).prevW < I.nW) && decide ((I.task t).prevS < (I.task t).nS)))
+    (decide ((I.task t).prevW < I.nW) && decide ((I.task t).prevS < (I.task t).nS) &&
+     compatible (I.worker (I.task t).prevW) ((I.task t).strat (I.task t).prevS) &&
+     (I.parentVars t).isEmpty))
 
 /-- No more parents with variables than parents in the graph (true when unique names are
 unique: `tasks_to_variables` is keyed by them). -/
@@ -234,7 +237,21 @@ def Inst.wfParents (I : Inst) : Bool :=
 
 def Inst.wfOffered (I : Inst) : Bool := decide (I.nOffered ≤ I.nT)
 
-def Inst.wf (I : Inst) : Bool := I.wfRunning && I.wfParents && I.wfOffered
+/-- Indices of the tasks with variables reachable from `a` through parent→child edges
+*between tasks with variables*, by paths of length ≤ fuel. -/
+def Inst.descIn (I : Inst) : Nat → Nat → List Nat
+  | 0, _ => []
+  | k + 1, a =>
+    let cs := (List.range I.nT).filter (fun c => (I.parentVars c).contains a)
+    cs ++ cs.flatMap (I.descIn k)
+
+/-- Every dependent (ancestor/descendant) pair of tasks with variables is connected by a
+chain of tasks with variables (no ancestor "through" a task that is not part of the call). -/
+def Inst.wfChains (I : Inst) : Bool :=
+  (List.range I.nT).all (fun a => (List.range I.nT).all (fun b =>
+    !I.dependent a b || (I.descIn I.nT a).contains b || (I.descIn I.nT b).contains a))
+
+def Inst.wf (I : Inst) : Bool := I.wfRunning && I.wfParents && I.wfOffered && I.wfChains
 
 /-! ### Names (identical to the f-strings of the code) -/
 
